@@ -127,7 +127,7 @@ func (d *Discharger) solve(text string, wantModel bool) Result {
 	if !d.noCache && !d.all {
 		if b, err := os.ReadFile(cfile); err == nil {
 			parts := strings.SplitN(string(b), "\n", 3)
-			if len(parts) >= 2 && (parts[0] == "unsat" || parts[0] == "sat") {
+			if len(parts) >= 2 && (parts[0] == "unsat" || parts[0] == "sat" || (!wantModel && parts[0] != "error")) {
 				r := Result{Status: parts[0], Solver: parts[1], Cached: true}
 				if len(parts) == 3 {
 					r.Output = parts[2]
@@ -154,7 +154,7 @@ func (d *Discharger) solve(text string, wantModel bool) Result {
 			if si > 0 && !d.all {
 				break
 			}
-			to = 2
+			to = 1
 		}
 		r := runSolver(sd, file, to, d.seed)
 		total += r.Seconds
@@ -176,7 +176,7 @@ func (d *Discharger) solve(text string, wantModel bool) Result {
 	}
 	res.Seconds = total
 	res.Tried = tried
-	if definite && !d.noCache && res.Status != "error" {
+	if (definite || !wantModel) && !d.noCache && res.Status != "error" {
 		_ = os.MkdirAll(filepath.Dir(cfile), 0o755)
 		_ = os.WriteFile(cfile, []byte(res.Status+"\n"+res.Solver+"\n"+res.Output), 0o644)
 	}
